@@ -260,14 +260,14 @@ PROPS = {
         'assumptions': [],
     },
     'C15': {
-        'oracles': ['C15', 'C04'],
+        'oracles': ['C15', 'C04'], 'bv_decide': True,
         'geoms': {'quick': ['default', 'th1'], 'thorough': ALLG},
         'runs': {'quick': [seq('change', 30, 150)], 'thorough': [seq('change', 800, 300), seq('mixed', 300, 300)]},
         'rule': S_RULE + (' Change flavor: change_tree with/without id, class/free matchers, class changes, Offline/Online, ids beyond the table; '
                           'oracle: an offline tree hands out nothing (targeted and untargeted gets, all slots), its frames vanish from tree_stats '
                           'but not from stats, Online restores the counter to the lower free count exactly, validate after the last Online.'),
-        'partial': ('change_tree proved against the upper invariant (no panic, only matching unreserved trees, Online exact, allocation state untouched); the '
-                    'history-level statement that no frame of an offline tree is handed out is carried by the correspondence'),
+        'partial': ('proved for every sequential history of a constructed allocator: change_tree (no panic, only matching unreserved trees, Online exact, allocation state '
+                    'untouched) and "an offline tree is never allocated from" (exact accounting of hidden frames); concurrent interleavings with tree changes are explored'),
         'assumptions': ['model deviation: Online reads the lower counters before the tree update (the source inside the update closure); equivalent sequentially'],
     },
     'C21': {
